@@ -58,6 +58,12 @@ def runVersion (mode : String) (b : Bytes) : String :=
   | .error e => s!"err {e.name}"
   | .ok v => s!"ok {rVersion v} rest=_ ser={toHex (Version.serAll v)} size={(Version.serAll v).length}"
 
+def runKeyOrigin (mode : String) (b : Bytes) : String :=
+  if mode != "o" then "bad-op" else
+  match keyOriginParseAll b with
+  | .error e => s!"err {e.name}"
+  | .ok k => s!"ok {toHex k.1}/[{joinWith "," (k.2.map toString)}] rest=_ ser={toHex (keyOriginSer k)} size={(keyOriginSer k).length}"
+
 def none' {α : Type} (_ : α) : String := ""
 
 def handle : List String → String
@@ -93,6 +99,9 @@ def handle : List String → String
           (fun l => s!"{l.1}/[{joinWith "," (l.2.1.map toHex)}]/{toHex l.2.2}") none' mode b
       | "headers.parse" => runCodec headers (fun l => joinWith ";" (l.map fun h => rHeader h.1)) none' mode b
       | "version.parse" => runVersion mode b
+      | "ssasig.parse" => runCodec ssaSig (fun t => s!"{t.1}/{t.2}") none' mode b
+      | "bmssig.parse" => runCodec bmsSig (fun t => s!"{t.1}/{t.2.1}/{t.2.2}") none' mode b
+      | "keyorigin.parse" => runKeyOrigin mode b
       | "xkey.parse" => runCodec xkey rXKey none' mode b
       | "psbtmap.parse" => Psbt.runMap mode b
       | "psbtmap.norm" => Psbt.runNorm mode b
